@@ -1271,7 +1271,13 @@ class TangentVector(PointPair):
 
         """
         normed = utils.normalize(self.aux_data, self.minkowski)
-        isom = utils.find_isometry(self.minkowski, normed,
+
+        # (x, v) and (-x, -v) are the same tangent vector: use the
+        # representative on the upper sheet of the hyperboloid, so
+        # that a positive determinant means orientation-preserving
+        # on hyperbolic space.
+        sheet = np.where(normed[..., :1, :1] < 0, -1, 1)
+        isom = utils.find_isometry(self.minkowski, normed * sheet,
                                    force_oriented)
 
         return Isometry(isom, column_vectors=False)
